@@ -215,6 +215,7 @@ def check_C01(chk):
         if g_.ok:
             RG_.c08a(chk, g_)
             RG_.c08b(chk, g_)
+            RG_.c08c(chk, g_)
             RG_.c08e(chk, g_)
     chk.borrow(_geno, "C01.f", 5)
     chk.borrow(lambda: RG_.c09d(chk), "C01.g", 5)
@@ -671,6 +672,16 @@ def affine_siblings(chk, rule):
         bad = [a for a in ads if a not in LENGTH_PRESERVING]
         chk.ob(rule, "entries/%s/one-per-requested-value" % what, not bad, f.loc(),
                "iterator adaptors between the option's values and the shape: %s (length-changing: %s)" % (ads, bad or "none"))
+    # every admissible target can be written down: the two options take plain unsigned integers (m_j = 0, i.e. `-p 0` = `--project-shape 1`,
+    # projects a population away and is admissible; a NonZero or narrower element type refuses values the property quantifies over)
+    for adt in ("sfs::create::Project", "sfs::view::Project"):
+        a = chk.prog.adts.get(adt)
+        if a is None:
+            continue
+        tys = {x["name"]: x["ty"] for x in a["variants"][0]["fields"]}
+        want = "core::option::Option<alloc::vec::Vec<usize>>"
+        chk.ob(rule, "option-types/%s/{individuals,shape}:Option<Vec<usize>>" % adt.split("sfs::")[-1], tys.get("individuals") == want and tys.get("shape") == want, "",
+               "individuals: %s, shape: %s" % (tys.get("individuals"), tys.get("shape")))
     return forms
 
 
@@ -724,6 +735,7 @@ def check_C02(chk):
         if g_.ok:
             RG_.c08a(chk, g_)
             RG_.c08b(chk, g_)
+            RG_.c08c(chk, g_)
     chk.borrow(_geno, "C02.h", 4)
     for r, n in (("C02.a", 10), ("C02.b", 10), ("C02.c", 3), ("C02.d", 2), ("C02.e", 1), ("C02.f", 1), ("C02.g", 7)):
         chk.floor(r, n)
@@ -2151,7 +2163,8 @@ def check_C11(chk):
     c11d(chk)
     c11e(chk)
     import rules_io as RIO_
-    RIO_.one_record_per_call(chk, "C11.f")
+    # the record buffer is reused between reads: a failed read must not be taken for a record (its genotypes would be the previous record's)
+    chk.borrow(lambda: RIO_.reader_outcomes(chk, "C10.e"), "C11.f", 2)
     for r, n in (("C11.a", 2), ("C11.b", 4), ("C11.c", 3), ("C11.d", 4), ("C11.e", 1), ("C11.f", 2)):
         chk.floor(r, n)
 
